@@ -55,7 +55,7 @@ def variants(cat):
 
 
 def vh_report(ctx):
-    return os.path.join(os.path.dirname(ctx.harness), 'vh_report')
+    return vlib.need_bin('vh_report')
 
 
 # ----------------------------------------------------------------------------- generators
